@@ -17,7 +17,7 @@ import ast
 from ..astutil import dotted, norm, walk_local
 from ..core import Ctx, PropSpec, Unsupported
 from ..extract import where
-from ..harness import Harness
+from ..harness import Harness, cursor
 from ..interp import BytesObj, ClassRef, FloatObj, IntObj, Raised, StrObj
 
 CM = "common.py"
@@ -208,8 +208,14 @@ def hooks(ctx: Ctx):
     # the cursor: class-level default plus per-instance stores by the readers (so it lives in __dict__)
     ci = prog.classes.get("RawPacketData")
     if ci is not None:
-        ctx.decide("pos" in ci.attrs, "R20.3", "packets.py::RawPacketData::pos-default", "class-level cursor default",
-                   "RawPacketData has no class-level `pos` default: a reconstructed packet has no cursor at all")
+        # a packet reconstructed without any instance state (bytes.__new__ only) still has a cursor, at bit 0
+        try:
+            hh = Harness(prog)
+            k, got = hh.outcome("obj.pos", "packets.py", obj=BytesObj(b"\x00\x01\x02\x03\x04\x05\x06", cls="RawPacketData"))
+            ctx.decide(k == "ok" and got == 0 and type(got) is int, "R20.3", "packets.py::RawPacketData::pos-default", "cursor default 0 without instance state",
+                       f"a RawPacketData reconstructed without instance state has no usable cursor: reading `pos` gives {got!r}")
+        except Unsupported as e:
+            ctx.unknown("R20.3", "packets.py::RawPacketData::pos-default", str(e))
 
 
 def emulate_value_pickle(ctx: Ctx, cname: str, defined):
@@ -292,7 +298,7 @@ def emulate_packet_copy(ctx: Ctx, defined):
             if r1 is None or r1 is r0:
                 return (False, "copy.deepcopy of a parsed packet shares the RawPacketData object with the original: advancing the "
                                "cursor of one moves the other")
-            if bytes(r1) != bytes(r0) or r1.attrs.get("pos") != 16 or dict(c) != dict(p):
+            if bytes(r1) != bytes(r0) or cursor(h, r1) != 16 or dict(c) != dict(p):
                 return (False, f"copy.deepcopy of a parsed packet differs: cursor {r1.attrs.get('pos')} items {dict(c)}")
         if "__copy__" in defined:
             k, c = h.outcome("p.__copy__()", "packets.py", p=p)
@@ -336,7 +342,7 @@ def emulate_copy(ctx: Ctx, cname: str, defined, slots):
             new.attrs.update({k: v for k, v in state.items() if k != "__dict__"})
         elif state is not None:
             return None
-        pos = new.attrs.get("pos", 0)
+        pos = cursor(h, new)
         if pos != 24:
             return (False, f"a copy/pickle of a RawPacketData whose cursor is at bit 24 comes back with cursor {pos}: "
                            f"the custom state hook drops the cursor")
@@ -390,7 +396,107 @@ def _is_passthrough(fi) -> bool:
     return False
 
 
+def unpicklable(prog, v, path="packet", seen=None, depth=0):
+    """Why pickle cannot serialise the model value `v` (None when it can): functions defined inside other functions and
+    lambdas ("Can't pickle local object"), XML nodes, other objects of unknown kind. Instances of module-level program
+    classes are pickled by reference to their class plus their state, which is walked in turn."""
+    from ..interp import BoundMethod, Closure, Obj, _NativeModel
+    from ..program import FuncInfo
+    seen = set() if seen is None else seen
+    if id(v) in seen or depth > 40:
+        return None
+    if v is None or type(v) in (bool, int, float, str, bytes, complex, bytearray):
+        return None
+    seen.add(id(v))
+    if isinstance(v, Closure):
+        if isinstance(v.node, ast.Lambda) or v.fi is None or v.fi.parent is not None:
+            name = "<lambda>" if isinstance(v.node, ast.Lambda) else getattr(v.node, "name", "?")
+            return f"{path} is the function `{name}` defined inside {v.fi.parent.key if v.fi is not None and v.fi.parent is not None else v.relpath}: pickle raises \"Can't pickle local object\""
+        return None
+    if isinstance(v, FuncInfo):
+        return None if v.parent is None else f"{path} is the nested function {v.key}"
+    if isinstance(v, BoundMethod):
+        return unpicklable(prog, v.self_val, path + ".__self__", seen, depth + 1)
+    if isinstance(v, ClassRef):
+        return None
+    if isinstance(v, (list, tuple, set, frozenset)):
+        for i, x in enumerate(v):
+            r = unpicklable(prog, x, f"{path}[{i}]", seen, depth + 1)
+            if r:
+                return r
+        if not isinstance(v, _NativeModel):
+            return None
+    if isinstance(v, dict):
+        for k, x in v.items():
+            r = unpicklable(prog, k, f"{path} key", seen, depth + 1) or unpicklable(prog, x, f"{path}[{k!r}]", seen, depth + 1)
+            if r:
+                return r
+        if not isinstance(v, _NativeModel):
+            return None
+    if isinstance(v, (Obj, _NativeModel)):
+        if isinstance(v, Obj) and v.attrs.get("__node__"):
+            return f"{path} is an XML node (lxml elements cannot be pickled)"
+        if isinstance(v, Obj) and (v.cls is None or v.cls not in prog.classes):
+            return f"{path} is an object of a kind pickling is not modelled for ({v.cls or 'external object'})"
+        for k, x in v.attrs.items():
+            if k.startswith("__") and k.endswith("__"):
+                continue
+            r = unpicklable(prog, x, f"{path}.{k}", seen, depth + 1)
+            if r:
+                return r
+        return None
+    try:
+        import pickle
+        pickle.dumps(v)
+        return None
+    except Exception as e:
+        return f"{path} is a {type(v).__name__}: {type(e).__name__}: {e}"
+
+
+def packet_state(ctx: Ctx):
+    """R20.5: whole parsed packets survive pickling - everything reachable from the state of a packet the generator yields
+    (items, raw bytes, cursor and whatever else parsing leaves on it) is something pickle can serialise."""
+    from . import xmlcommon as X
+    from .c01 import kitchen_packets, third_cases
+    from ..models import ccsds_bytes
+    from ..xmlmodel import parse_text
+    from ..interp import StepLimit
+    prog = ctx.prog
+    fi = prog.func(f"{X.DEF}::XtcePacketDefinition.packet_generator")
+    docs = {
+        "all-features document": (lambda h: X.load(h, X.write_tree(h, X.build_kitchen_sink(h)), "xtce"), lambda: b"".join(p[1] for p in kitchen_packets())),
+        "hand-written document": (lambda h: X.load(h, parse_text(X.third_text()), "xtce"),
+                                  lambda: b"".join(ccsds_bytes(u, apid=a) for _, a, u in third_cases())),
+    }
+    for name, (build, stream) in docs.items():
+        site = f"{fi.key}::state of yielded packets::{name}"
+        try:
+            h = X.harness(prog)
+            d = build(h)
+            k, got = h.outcome("d.packet_generator(src, yield_unrecognized_packet_errors=True)", X.DEF, d=d, src=stream())
+        except (Unsupported, StepLimit, Raised) as e:
+            ctx.unknown("R20.5", site, str(e))
+            continue
+        if k != "ok" or not got:
+            ctx.unknown("R20.5", site, f"the stream does not decode: {got}")
+            continue
+        bad = None
+        n = 0
+        for i, p in enumerate(got):
+            if isinstance(p, dict):
+                n += 1
+                bad = unpicklable(prog, p, f"packet {i}")
+            else:
+                pd = getattr(p, "kwargs", {}).get("partial_data")
+                bad = unpicklable(prog, pd, f"partial data of the error object {i}") if pd is not None else None
+            if bad:
+                break
+        ctx.decide(bad is None and n > 0, "R20.5", site, f"{n} packets: items, raw bytes, cursor and every other attribute are picklable",
+                   f"a parsed packet cannot be pickled: {bad}", where=where(fi, fi.node))
+
+
 def check(ctx: Ctx) -> None:
+    ctx.guard("R20.5", "xtce/definitions.py", packet_state, ctx)
     ctx.guard("R20.1", CM, base_table, ctx)
     ctx.guard("R20.2", CM, constructor, ctx)
     ctx.guard("R20.3", CM, hooks, ctx)
@@ -432,7 +538,7 @@ SPEC = PropSpec(
     pid="C20",
     title="Parsed values are drop-in built-ins with a raw value and survive copying",
     check=check,
-    floors={"R20.1": 5, "R20.2": 6, "R20.3": 9, "R20.4": 6, "R20.e": 20},
+    floors={"R20.5": 2, "R20.1": 5, "R20.2": 6, "R20.3": 9, "R20.4": 6, "R20.e": 20},
     explanation=("Class-shape rules over the value classes, CCSDSPacket and RawPacketData: base table (mixin first, one "
                  "matching built-in), decision table of the constructor hook by abstract interpretation for every "
                  "class x falsy/ordinary value x raw omitted/falsy/ordinary (raw chosen by `is None`, value forwarded), "
